@@ -187,6 +187,24 @@ CLAIMS = {
         technique="Lean 4 proof (partition of the index space, field identity) + end-to-end differential "
                   "correspondence",
         ref="DESIGN.md §6 C01"),
+    "C12": dict(
+        text="Lean 4 theorems on a model of FileAccessor over an abstract file system (component lists, gzip "
+             "as an abstract tag, the code's probing order plain/.gz and flat/sub-directory with last match "
+             "winning, directory conflicts): a fetch returns exactly the bytes of the latest store and the "
+             "store touches no other path; storing without permission to overwrite an existing target fails "
+             "with a data-access error; absolute names and names with a '..' component are refused by all "
+             "three file operations with a result independent of the file system; chunks land at the "
+             "documented path (MIME exception table regenerated from the source) and a chunk written under "
+             "any configuration is read under any other (four pairwise distinct candidate paths). Tie: "
+             "operation histories on a real directory compared op by op (values, exception classes) and by "
+             "final tree with the model; every read repeated through the three other configurations.",
+        note="Trusted: Lean kernel; standard axioms; hand-written model (tie = random histories with forced "
+             "name collisions); gzip round trip and rejection of non-gzip data (external); hypothesis: a name "
+             "is stored with one MIME type and no stored name is another + '.gz' (excluded point executed and "
+             "counted in the evidence).",
+        technique="Lean 4 proof (map refinement with lookup-order lemmas) + history-based differential "
+                  "correspondence",
+        ref="DESIGN.md §6 C12"),
 }
 
 ALL = ["C%02d" % i for i in range(1, 21)]
